@@ -5,6 +5,8 @@
   (x, y, θ) round trips.  Explored (smv/props/c05.py, 1e-6): rpy / Euler / axis-angle round trips on every branch incl.
   the singular bands.
 -/
+import SmVerif.Spec.SO3Facts
+import Mathlib.Tactic.Positivity
 import SmVerif.Bridge.Rot
 import SmVerif.Bridge.AngVec
 import SmVerif.Props.C01
@@ -133,5 +135,139 @@ theorem tr2xyt_xyt2tr (v : Vec 3 R) (hθ : P.atan2 (P.sin (v 2)) (P.cos (v 2)) =
   rw [Bridge.xyt2tr] at h; cases h
   unfold Gen.tr2xyt; simp only []; congr 1
   apply Vec.ext3 <;> simp [rt2, rot2, hθ]
+
+/-! ### tr2rpy is a right inverse of rpy2r (ZYX), all non-singular branches -/
+
+/-- the algebraic core of "rpy2r ∘ tr2rpy = id" (ZYX order): if the six trigonometric values are the ones read off the first
+column and the last row of a rotation matrix, the product Rz(y)·Ry(p)·Rx(r) is that matrix -/
+theorem zyx_core (M : Mat 3 3 R) (hM : IsSO3 M) (ρ cr sr cp sp cy sy : R) (hρ : ρ ≠ 0)
+    (hρ2 : ρ * ρ = 1 - M 2 0 * M 2 0)
+    (h1 : cr * ρ = M 2 2) (h2 : sr * ρ = M 2 1) (h3 : cp = ρ) (h4 : sp = -M 2 0) (h5 : cy * ρ = M 0 0) (h6 : sy * ρ = M 1 0) :
+    mmul (mmul (rotz cy sy) (roty cp sp)) (rotx cr sr) = M := by
+  obtain ⟨c00, c01, c02, c10, c11, c12, c20, c21, c22⟩ := hM.cof
+  have o := hM.orth
+  have col0 : M 0 0 * M 0 0 + M 1 0 * M 1 0 + M 2 0 * M 2 0 = 1 := by
+    have := hM.transpose_mul
+    have e := congrFun (congrFun this 0) 0
+    simpa [mmul, mT, one3, Fin.sum_univ_three] using e
+  have hρ2' : ρ * ρ ≠ 0 := mul_ne_zero hρ hρ
+  apply Mat.ext33' <;> simp [mmul, rotz, roty, rotx, Fin.sum_univ_three, h3, h4] <;> apply mul_right_cancel₀ hρ2'
+  · linear_combination (ρ * ρ) * h5
+  · linear_combination (-1) * c01 + (-M 2 0*ρ*sr) * h5 + (-cr*ρ) * h6 + (-M 1 0) * h1 + (-M 0 0*M 2 0) * h2 + (-M 2 0) * c12 + (-M 0 1) * hρ2
+  · linear_combination (-M 2 0*cr*ρ) * h5 + (ρ*sr) * h6 + (-M 0 0*M 2 0) * h1 + (M 1 0) * h2 + (-M 0 2) * hρ2 + (M 2 0) * c11 + (-1) * c02
+  · linear_combination (ρ * ρ) * h6
+  · linear_combination (cr*ρ) * h5 + (-M 2 0*ρ*sr) * h6 + (M 0 0) * h1 + (-M 1 0*M 2 0) * h2 + (-M 1 1) * hρ2 + (-1) * c11 + (M 2 0) * c02
+  · linear_combination (-M 2 0) * c01 + (-ρ*sr) * h5 + (-M 2 0*cr*ρ) * h6 + (-M 1 0*M 2 0) * h1 + (-M 0 0) * h2 + (-1) * c12 + (-M 1 2) * hρ2
+  · linear_combination (ρ * ρ) * h2
+  · linear_combination (ρ * ρ) * h1
+
+/-! laws of the inverse trigonometric functions used by the extraction code -/
+/-- polar form of atan2 away from the origin -/
+def Atan2Polar (P : Prims R) : Prop :=
+  ∀ y x : R, (x ≠ 0 ∨ y ≠ 0) → P.cos (P.atan2 y x) * P.sqrt (x * x + y * y) = x ∧ P.sin (P.atan2 y x) * P.sqrt (x * x + y * y) = y
+/-- atan as an angle: cos = 1/√(1+t²), sin = t/√(1+t²) -/
+def AtanLaw (P : Prims R) : Prop :=
+  ∀ t : R, P.cos (P.atan t) * P.sqrt (1 + t * t) = 1 ∧ P.sin (P.atan t) * P.sqrt (1 + t * t) = t
+def NegLaw (P : Prims R) : Prop := ∀ x : R, P.cos (-x) = P.cos x ∧ P.sin (-x) = -P.sin x
+
+/-- positive square roots are unique -/
+theorem sqrt_unique (hS : P.Sqrt) (x r : R) (hx : 0 ≤ x) (hr : 0 < r) (h : r * r = x) : P.sqrt x = r := by
+  have h1 := hS.mul_self x hx; have h0 := hS.nonneg x
+  have : (P.sqrt x - r) * (P.sqrt x + r) = 0 := by linear_combination h1 - h
+  rcases mul_eq_zero.mp this with h2 | h2
+  · linarith
+  · exfalso; linarith
+
+/-- the pitch angle: with t = M20/ρ, cos(−atan t) = ρ and sin(−atan t) = −M20 -/
+theorem pitch_of_atan (hS : P.Sqrt) (hA : AtanLaw P) (hN : NegLaw P) (m ρ t : R) (hρ : 0 < ρ) (hρ2 : ρ * ρ = 1 - m * m) (ht : t * ρ = m) :
+    P.cos (-(P.atan t)) = ρ ∧ P.sin (-(P.atan t)) = -m := by
+  obtain ⟨hc, hs⟩ := hA t
+  have hne : ρ ≠ 0 := ne_of_gt hρ
+  have hsq : P.sqrt (1 + t * t) = 1 / ρ := by
+    apply sqrt_unique P hS _ _ (add_nonneg zero_le_one (mul_self_nonneg t)) (by positivity)
+    field_simp
+    have : t = m / ρ := by field_simp; exact ht
+    rw [this]; field_simp; linarith [hρ2]
+  rw [hsq] at hc hs
+  obtain ⟨n1, n2⟩ := hN (P.atan t)
+  rw [n1, n2]
+  constructor
+  · field_simp at hc; linarith [hc]
+  · have : P.sin (P.atan t) = t * ρ := by field_simp at hs; linarith [hs]
+    rw [this, ht]
+
+theorem abs_gt_ne {a b : R} (h : |a| > |b|) : a ≠ 0 := by
+  intro e; rw [e, abs_zero] at h; exact absurd h (not_lt.mpr (abs_nonneg b))
+
+/-- **rpy2r(tr2rpy(R)) = R** for every rotation matrix away from the pitch = ±90° singularity (ZYX order), on every one of the
+eight branches the extraction code chooses between -/
+theorem tr2rpy_zyx_right_inverse (hS : P.Sqrt) (hP : Atan2Polar P) (hA : AtanLaw P) (hN : NegLaw P)
+    (M : Mat 3 3 R) (hM : IsSO3 M) (v : Vec 3 R) (h : Gen.tr2rpy_zyx P M = .ok v)
+    (hns : ¬ |(|M 2 0| - 1)| < 5 / 2251799813685248) : Gen.rpy2r_zyx_rad P v = .ok M := by
+  have col0 : M 0 0 * M 0 0 + M 1 0 * M 1 0 + M 2 0 * M 2 0 = 1 := by
+    have e := congrFun (congrFun hM.transpose_mul 0) 0
+    simpa [mmul, mT, one3, Fin.sum_univ_three] using e
+  have row2 : M 2 0 * M 2 0 + M 2 1 * M 2 1 + M 2 2 * M 2 2 = 1 := by
+    have e := congrFun (congrFun hM.orth 2) 2
+    simpa [mmul, mT, one3, Fin.sum_univ_three] using e
+  -- away from the singularity 1 - M20² > 0
+  have hlt : M 2 0 * M 2 0 < 1 := by
+    rcases lt_or_eq_of_le (by nlinarith [mul_self_nonneg (M 0 0), mul_self_nonneg (M 1 0)] : M 2 0 * M 2 0 ≤ 1) with h1 | h1
+    · exact h1
+    · exfalso; apply hns
+      have : |M 2 0| = 1 := by
+        have h2 : |M 2 0| * |M 2 0| = 1 := by rw [abs_mul_abs_self]; exact h1
+        have h3 : (|M 2 0| - 1) * (|M 2 0| + 1) = 0 := by linear_combination h2
+        rcases mul_eq_zero.mp h3 with h4 | h4
+        · linarith
+        · exfalso; linarith [abs_nonneg (M 2 0)]
+      rw [this]; simp
+  set ρ := P.sqrt (1 - M 2 0 * M 2 0) with hρdef
+  have hρ2 : ρ * ρ = 1 - M 2 0 * M 2 0 := hS.mul_self _ (by linarith)
+  have hρpos : 0 < ρ := by
+    rcases lt_or_eq_of_le (hS.nonneg (1 - M 2 0 * M 2 0)) with h1 | h1
+    · exact h1
+    · exfalso; rw [← hρdef] at h1; rw [← h1] at hρ2; linarith
+  -- roll and yaw from atan2
+  have er : M 2 2 * M 2 2 + M 2 1 * M 2 1 = 1 - M 2 0 * M 2 0 := by linarith
+  have ey : M 0 0 * M 0 0 + M 1 0 * M 1 0 = 1 - M 2 0 * M 2 0 := by linarith
+  have nzr : M 2 2 ≠ 0 ∨ M 2 1 ≠ 0 := by
+    by_contra hc; push_neg at hc; rw [hc.1, hc.2] at er; linarith
+  have nzy : M 0 0 ≠ 0 ∨ M 1 0 ≠ 0 := by
+    by_contra hc; push_neg at hc; rw [hc.1, hc.2] at ey; linarith
+  obtain ⟨hcr, hsr⟩ := hP (M 2 1) (M 2 2) nzr
+  obtain ⟨hcy, hsy⟩ := hP (M 1 0) (M 0 0) nzy
+  rw [er, ← hρdef] at hcr hsr
+  rw [ey, ← hρdef] at hcy hsy
+  have key : ∀ a : R, a * ρ = M 2 0 →
+      mmul (mmul (Rz P (P.atan2 (M 1 0) (M 0 0))) (Ry P (-(P.atan a)))) (Rx P (P.atan2 (M 2 1) (M 2 2))) = M := by
+    intro a ha
+    obtain ⟨hcp, hsp⟩ := pitch_of_atan P hS hA hN (M 2 0) ρ a hρpos hρ2 ha
+    exact zyx_core M hM ρ _ _ _ _ _ _ (ne_of_gt hρpos) hρ2 hcr hsr hcp hsp hcy hsy
+  have hρne : ρ ≠ 0 := ne_of_gt hρpos
+  unfold Gen.tr2rpy_zyx at h; simp only [] at h
+  rw [if_neg hns] at h
+  split_ifs at h with c1 c2 c3 c4 c5 c6 c7 <;> cases h <;> rw [(rpy2r_zyx P _).1] <;> congr 1 <;> simp only [v3_0, v3_1, v3_2] <;> apply key
+  · have d : M 2 2 ≠ 0 := abs_gt_ne c3
+    field_simp; linear_combination (M 2 0) * hcr
+  · have d : M 2 1 ≠ 0 := abs_gt_ne c2
+    field_simp; linear_combination (M 2 0) * hsr
+  · have d : M 2 2 ≠ 0 := abs_gt_ne c4
+    field_simp; linear_combination (M 2 0) * hcr
+  · have d : M 1 0 ≠ 0 := abs_gt_ne c1
+    field_simp; linear_combination (M 2 0) * hsy
+  · have d : M 2 2 ≠ 0 := abs_gt_ne c6
+    field_simp; linear_combination (M 2 0) * hcr
+  · have d : M 2 1 ≠ 0 := abs_gt_ne c5
+    field_simp; linear_combination (M 2 0) * hsr
+  · have d : M 2 2 ≠ 0 := abs_gt_ne c7
+    field_simp; linear_combination (M 2 0) * hcr
+  · have d : M 0 0 ≠ 0 := by
+      intro e
+      have h10 : M 1 0 = 0 := by
+        have : |M 1 0| ≤ |M 0 0| := not_lt.mp c1
+        rw [e, abs_zero] at this; exact abs_eq_zero.mp (le_antisymm this (abs_nonneg _))
+      rw [e, h10] at ey; linarith
+    field_simp; linear_combination (M 2 0) * hcy
 
 end SmVerif.Props.C05
